@@ -529,11 +529,11 @@ func init() {
 		return nil, false
 	}
 	I["fmt.Sprint"] = func(c *icall) ([]*State, bool) {
-		r := litStr("")
-		for _, a := range sliceElems(c.s, c.args[0]) {
-			r = strConcat(r, c.w.fmtValue(c.s, a, 'v'))
-		}
-		c.set(r)
+		c.set(c.w.sprint(c.s, sliceElems(c.s, c.args[0]), false))
+		return nil, false
+	}
+	I["fmt.Sprintln"] = func(c *icall) ([]*State, bool) {
+		c.set(c.w.sprint(c.s, sliceElems(c.s, c.args[0]), true))
 		return nil, false
 	}
 	I["fmt.Errorf"] = func(c *icall) ([]*State, bool) {
@@ -548,13 +548,13 @@ func init() {
 		return c.tailInvoke(c.args[0].(IfaceV), "Write", []Value{c.w.bytesOfString(c.s, msg)})
 	}
 	I["fmt.Fprint"] = func(c *icall) ([]*State, bool) {
-		r := litStr("")
-		for _, a := range sliceElems(c.s, c.args[1]) {
-			r = strConcat(r, c.w.fmtValue(c.s, a, 'v'))
-		}
+		r := c.w.sprint(c.s, sliceElems(c.s, c.args[1]), false)
 		return c.tailInvoke(c.args[0].(IfaceV), "Write", []Value{c.w.bytesOfString(c.s, r)})
 	}
-	I["fmt.Fprintln"] = I["fmt.Fprint"]
+	I["fmt.Fprintln"] = func(c *icall) ([]*State, bool) {
+		r := c.w.sprint(c.s, sliceElems(c.s, c.args[1]), true)
+		return c.tailInvoke(c.args[0].(IfaceV), "Write", []Value{c.w.bytesOfString(c.s, r)})
+	}
 	I["io.WriteString"] = func(c *icall) ([]*State, bool) {
 		return c.tailInvoke(c.args[0].(IfaceV), "Write", []Value{c.w.bytesOfString(c.s, c.str(1))})
 	}
@@ -777,6 +777,30 @@ func (w *Worker) strMap(s *State, a StrV, f func(string) string, uf string) StrV
 		return StrV{K: SChars, C: out}
 	}
 	return opaqueStr(w.applyUF(s, uf, []Value{a}, "String", "string"))
+}
+
+// sprint: fmt.Sprint (a space between operands when neither is a string) and
+// fmt.Sprintln (a space between all operands, newline at the end).
+func (w *Worker) sprint(s *State, args []Value, ln bool) StrV {
+	isStr := func(a Value) bool {
+		if iv, ok := a.(IfaceV); ok && !iv.IsNil() && iv.Typ != nil {
+			if b, ok := iv.Typ.Underlying().(*types.Basic); ok && b.Info()&types.IsString != 0 {
+				return true
+			}
+		}
+		return false
+	}
+	r := litStr("")
+	for i, a := range args {
+		if i > 0 && (ln || (!isStr(a) && !isStr(args[i-1]))) {
+			r = strConcat(r, litStr(" "))
+		}
+		r = strConcat(r, w.fmtValue(s, a, 'v'))
+	}
+	if ln {
+		r = strConcat(r, litStr("\n"))
+	}
+	return r
 }
 
 func (w *Worker) fmtValue(s *State, a Value, verb byte) StrV {
